@@ -800,6 +800,9 @@ def run(replay=None):
     t = C.tier()
     sd = C.seed()
     runs, ndeep = plan(t, sd)
+    closed = set(filter(None, os.environ.get("VERIF_C18_CLOSED", "").split(",")))   # trial of a repair: treat as fixed
+    if closed:
+        V.findings.open = [f for f in V.findings.open if not (set(f.get("tags", [])) & closed)]
     OPTS["open_tags"] = sorted({tg for f in V.findings.open for tg in f.get("tags", [])})
     only = os.environ.get("VERIF_C18_MODES")          # development aid: restrict to some families
     if only:
